@@ -81,10 +81,12 @@ async fn through_compat<A: Adapter>(driver: &str, env: &Arc<Env>) -> Outcome {
     } else {
         None
     };
+    *env.ring_fd.lock().unwrap() = if driver == "poll" { None } else { Some(poll_fd) };
     *env.rt_waker.lock().unwrap() = Some(compat.waker());
     let main = spawn_all(&compat, env);
     let out = compat.execute(main).await;
     *env.watch_fd.lock().unwrap() = None;
+    *env.ring_fd.lock().unwrap() = None;
     *env.rt_waker.lock().unwrap() = None;
     out
 }
